@@ -31,6 +31,8 @@ DROP_FIELDS = {
     "breakpoint_id", "id",
 }
 
+JUNK = {}          # family -> fn(case) -> case: the same family with another value of the one parameter that must stay
+                   # private to a simulation (key spelling, hashing seed); C03 runs it as junk before the batch in W1
 ORIGIN = {}        # id(event) -> library class that created an event a harness worker passes on (see from_lib)
 TRAITS = {}        # family -> set of {"strkeys", "modrng", "hashroute"} (C03 non-triviality declaration)
 SCENARIOS = {}     # family -> builder(case) -> Scenario
@@ -2702,20 +2704,27 @@ def f_sketch_tuple_keys(case):
     cms = SketchCollector("cms", sk.CountMinSketch(width=4 + k[2] % 6, depth=2 + k[3] % 2, seed=seed), value_extractor=item)
     cms_num = SketchCollector("cms_num", sk.CountMinSketch(width=3 + k[2] % 4, depth=2, seed=seed), value_extractor=lambda e: e.context["num"])
     topk = TopKCollector("topk", k=3, value_extractor=item, seed=seed)
+    hll = SketchCollector("hll", sk.HyperLogLog(precision=4 + k[4] % 5, seed=seed), value_extractor=item)
+    bloom = SketchCollector("bloom", sk.BloomFilter(size_bits=32 + 8 * (k[5] % 8), num_hashes=2, seed=seed), value_extractor=item)
     rnd = rng_of(case, 95)
 
     def fan(self, e):
         tier = rnd.randrange(5)
         ctx = {"item": (rnd.choice(regions), _spell(kind, tier)), "num": _spell(kind, rnd.randrange(8))}
-        return [Event(time=self.now, event_type="Item", target=c, context=ctx) for c in (cms, cms_num, topk)]
+        return [Event(time=self.now, event_type="Item", target=c, context=ctx) for c in (cms, cms_num, topk, hll, bloom)]
     f = Proc("fanout", fan)
     n = 90
-    sim = mksim([cms, cms_num, topk, f], n + 50, sources=[const_source("items", f, 1, n, case["seed"], etype="Go")])
+    sim = mksim([cms, cms_num, topk, hll, bloom, f], n + 50, sources=[const_source("items", f, 1, n, case["seed"], etype="Go")])
     probes = [(r, _spell(kind, t)) for r in regions for t in range(5)]
     return Scenario(sim, workload=3 * n, variant="",
                     extra=lambda: {"cms": [cms.sketch.estimate(p) for p in probes],
                                    "num": [cms_num.sketch.estimate(_spell(kind, i)) for i in range(8)],
-                                   "topk": [(repr(x.item), x.count) for x in topk.top()]})
+                                   "topk": [(repr(x.item), x.count) for x in topk.top()],
+                                   "hll": hll.sketch.cardinality(), "hll_regs": list(getattr(hll.sketch, "_registers", []) or []),
+                                   "bloom": [bloom.sketch.contains(p) for p in probes + [("zz", 9)]]})
+
+
+JUNK["sketch_tuple_keys"] = lambda c: dict(c, k=[c["k"][0] + 1] + list(c["k"][1:]))
 
 
 @family("any_of_race", "strkeys")
@@ -2745,3 +2754,28 @@ def f_any_of_race(case):
     srcs = [const_source(f"s{i}", c, 5 + i, 5 * n, case["seed"] + i, etype="Go") for i, c in enumerate(clients)]
     sim = mksim(clients + [backend, done], 5 * n + 60, sources=srcs)
     return Scenario(sim, workload=3 * n, extra=lambda: {"logs": [c.log for c in clients]})
+
+
+@family("consistent_hash_store", "strkeys", "hashroute")
+def f_consistent_hash_store(case):
+    """ShardedStore with ConsistentHashSharding whose seed (0, 1 or the case seed, k[5]) belongs to this simulation only:
+    C03 first runs the same family with the same ring geometry but the next seed as junk in W1 (``JUNK``)."""
+    from happysimulator.components.datastore import KVStore, ShardedStore
+    from happysimulator.components.datastore import sharded_store as ss
+    k = K(case)
+    shards = [KVStore(f"shard{i}", read_latency=ticks(1 + i % 2), write_latency=ticks(1 + (k[1] + i) % 3)) for i in range(3 + k[2] % 3)]
+    st = ShardedStore("sharded", shards, sharding_strategy=ss.ConsistentHashSharding(virtual_nodes=2 + k[3] % 12, seed=xseed(case, k[5])))
+    workers, evs = kv_workers(st, case, 3, 30, 14, ops=("put", "put", "get", "get", "delete"))
+    sim = mksim([st] + shards + workers, 1500, events=evs)
+    return Scenario(sim, workload=90, extra=lambda: {"logs": [w.log for w in workers], "sizes": st.get_shard_sizes(),
+                                                     "placement": {key: st.get_shard_for_key(key) for key in KEYS}})
+
+
+def _other_seed(c):
+    k = list(c["k"])
+    k[5] += 1
+    seed = c["seed"] if c["seed"] not in (0, 1) else c["seed"] + 2     # keep the three xseed values distinct
+    return dict(c, k=k, seed=seed)
+
+
+JUNK["consistent_hash_store"] = _other_seed
